@@ -643,9 +643,6 @@ func (c *eCorpus) randomRequests(r *rng.R, n int, vocab map[string][]string, agg
 	var gen func(d int) *eExpr
 	gen = func(d int) *eExpr {
 		if d == 0 || r.Chance(2, 5) {
-			if r.Chance(1, 12) {
-				return eAll()
-			}
 			return leaf()
 		}
 		switch r.Intn(5) {
@@ -659,6 +656,9 @@ func (c *eCorpus) randomRequests(r *rng.R, n int, vocab map[string][]string, agg
 	lo, hi := c.midRange()
 	for i := 0; i < n; i++ {
 		e := gen(2)
+		if r.Chance(1, 12) {
+			e = eAll() // `*` is only accepted as the whole query
+		}
 		from, to := lo-1, hi+1
 		if r.Chance(2, 3) {
 			a, b := c.docs[r.Intn(len(c.docs))].mid, c.docs[r.Intn(len(c.docs))].mid
@@ -737,7 +737,7 @@ func eGenLid64k(r *rng.R, ndocs int) *eCorpus {
 	c.search(eTok("k", "d"), lo, hi, 70000, r.Bool(), false, "limit-above-hits")
 	mid := func() uint64 { return lo + uint64(r.Intn(int(hi-lo+1))) }
 	combos := []*eExpr{eOr(eTok("k", "b"), eTok("k", "d")), eAnd(eTok("k", "e"), eTok("m", "c")), eNot(eTok("k", "e")), eOr(eTok("k", "a"), eTok("k", "f")),
-		eAnd(eTok("k", "e"), eNot(eTok("m", "b"))), eAnd(eTok("m", "a"), eTok("k", "d")), ePre("k", ""), eOr(ePre("m", "a"), eTok("m", "d")), eNot(eAll()),
+		eAnd(eTok("k", "e"), eNot(eTok("m", "b"))), eAnd(eTok("m", "a"), eTok("k", "d")), ePre("k", ""), eOr(ePre("m", "a"), eTok("m", "d")), eNot(ePre("k", "")),
 		eAnd(eNot(eTok("m", "a")), eNot(eTok("k", "d"))), eTok("k", "c"), eTok("m", "d"), eTok("k", "zz")}
 	for _, e := range combos {
 		c.search(e, lo, hi, rng.Pick(r, eLimits[:5]), r.Bool(), true, "combo")
@@ -1129,7 +1129,7 @@ func runE2E(w *casefile.Writer, r *rng.R, tier string) {
 		add(func(r *rng.R) *eCorpus { return eGenDict16k(r, s) })
 	}
 	for i := 0; i < nsmall; i++ {
-		add(genSmall)
+		add(eGenSmall)
 	}
 
 	tmp, err := os.MkdirTemp("", "verif-hC03-")
